@@ -10,15 +10,38 @@ RULE = ('C01 workloads plus 1-3 termination requests (terminate(reason) / Agent.
         'of runs, faults (stall, slow node, reset, kill = FIN from a dead process, black-hole), each placed at a drawn time, very '
         'early (contact/session negotiation), after the n-th socket write of a side, or after the n-th occurrence of a D-Bus '
         'signal (transfer started / intermediate / finished, state change); bounded buffers and short writes stay enabled. '
-        'Non-trivial: a SESS_TERM, close or fault actually occurred; distinct = distinct event-history digests.')
+        'A fifth of the runs open two contacts between the same two agents and call Agent.shutdown() (or terminate() on one contact) while transfers run on the other; no faults there, so every started transfer must complete, every terminated contact must exchange SESS_TERM and close, and a contact that was not terminated must stay open. Non-trivial: a SESS_TERM, close or fault actually occurred; distinct = distinct event-history digests.')
 COMPONENTS = tc.COMPONENTS
 PROBES = ('wire.SESS_TERM', 'probe.term_mid_transfer', 'probe.simultaneous_term', 'probe.term_before_established',
-          'probe.unstarted_at_term', 'fault.reset', 'fault.kill', 'fault.blackhole', 'fault.stall', 'tcp.short_write')
+          'probe.unstarted_at_term', 'fault.reset', 'fault.kill', 'fault.blackhole', 'fault.stall', 'tcp.short_write', 'engine.multi_contact')
 ASSUMPTIONS = ['as C01', 'bounded liveness: both contacts closed within the 60 s horizon (which exceeds every stall and idle time drawn)']
 CHUNK = 10
 
 
+def _gen_multi(ch):
+    ''' Two contacts between the same two agents; Agent.shutdown() (or terminate on one contact) while the other one is busy. '''
+    prof = dict(backpressure=True)
+    cfg = {'A': tcpcl_pair.gen_config(ch, 'A', prof), 'P': tcpcl_pair.gen_config(ch, 'P', prof)}
+    sends = []
+    for ix in range(1 + ch.pick('nsend', 5)):
+        side = ch.choice('s.side', ('A', 'P'))
+        seg = min(cfg[side]['segment_size_tx_initial'], cfg['P' if side == 'A' else 'A']['segment_size_mru'])
+        size = min(ch.choice('s.len', (1, 500, 5000, 40000, 150000)), 150 * seg)
+        sends.append(dict(t=3000 + 1000 * ch.pick('s.t', 40), side=side, cx=ch.pick('s.cx', 2), len=size, tag=ix + 1))
+    term = dict(side=ch.choice('t.side', ('A', 'P')), kind=ch.choice('t.kind', ('shutdown', 'shutdown', 'terminate0', 'terminate1')))
+    if ch.coin('t.trig', 2, 3):
+        term['after'] = ['tcp-send', ch.choice('t.ts', ('A', 'P')), 6 + ch.pick('t.nth', 40)]
+        term['delay'] = ch.choice('t.delay', (0, 30, 300))
+    else:
+        term['t'] = 3000 + 1000 * ch.pick('t.t', 60)
+    return dict(scenario='tcpcl_multi', cfg=cfg, chunk_size=ch.choice('chunk', (10240, 10240, 1000, 65536)),
+                net=dict(tcp_capacity=ch.choice('cap', (65536, 4096, 262144)), short_write_16=ch.choice('shortw', (0, 0, 4))),
+                sends=sorted(sends, key=lambda item: item['t']), term=term)
+
+
 def gen(ch, tier):
+    if ch.coin('multi', 1, 5):
+        return _gen_multi(ch)
     prof = dict(min_one=False, backpressure=True, max_bundles=4, liveness=False, terminate=True,
                 big=32768, max_segments=200, allow_zero=ch.coin('allow0', 1, 8))
     mode = ch.weighted('mode', (6, 3, 2))
@@ -29,11 +52,137 @@ def gen(ch, tier):
     return tcpcl_pair.gen_plan(ch, prof)
 
 
+class _MRun:
+    pass
+
+
+def _execute_multi(plan, sched, verbose):
+    from dsim.world import CallbackHang
+    from ref import rfc9174
+    hplan = dict(plan, ops=[], faults=[], prof={}, horizon=60 * tcpcl_pair.SEC)
+    har = tcpcl_pair.Harness(hplan, sched, verbose)
+    wld = har.wld
+    run = _MRun()
+    run.har = har
+    run.wld = wld
+    run.plan = plan
+    run.viols = []
+    run.stats = {'engine.multi_contact': 1}
+    queued = []          # (seq, side, cx, tid, len)
+    term_seq = {}
+
+    def connect(_item):
+        har.call('A', tcpcl_pair.AGENT_PATH, 'connect', tcpcl_pair.ADDR['P'], 4556)
+
+    def send(item):
+        paths = har.opened[item['side']]
+        if len(paths) <= item['cx'] or paths[item['cx']] in har.closed[item['side']]:
+            return
+        ret = har.call(item['side'], paths[item['cx']], 'send_bundle_data', tcpcl_pair.body_for(item['tag'], item['len']))
+        if isinstance(ret, str):
+            queued.append((wld.seq, item['side'], item['cx'], str(ret), item['len']))
+
+    def term(item):
+        term_seq['seq'] = wld.seq
+        # terminating a session that is not yet established raises (E1 counts that as probe.term_before_established)
+        est = set(evt[4] for evt in wld.hist if evt[3] == 'dbus-signal' and evt[2] == item['side'] and evt[5] == 'session_state_changed' and evt[7][0] == 'established')
+        term_seq['all_established'] = len(har.opened[item['side']]) >= 2 and all(path in est for path in har.opened[item['side']][:2])
+        if item['kind'] == 'shutdown':
+            har.call(item['side'], tcpcl_pair.AGENT_PATH, 'shutdown')
+        else:
+            paths = har.opened[item['side']]
+            cx = int(item['kind'][-1])
+            if len(paths) > cx:
+                har.call(item['side'], paths[cx], 'terminate', 0)
+
+    wld.at(0, connect, None)
+    wld.at(1500, connect, None)
+    for item in plan['sends']:
+        wld.at(item['t'], send, item)
+    har._schedule(plan['term'], term)
+    try:
+        wld.run(until_us=60 * tcpcl_pair.SEC)
+    except CallbackHang:
+        run.viols.append(('close', 'callback-hang', 'a callback never returned (watchdog)'))
+        wld.cur = None
+        return run
+    # -- oracle ---------------------------------------------------------------
+    sigs = {}
+    for evt in wld.hist:
+        if evt[3] == 'dbus-signal':
+            sigs.setdefault((evt[2], evt[4], evt[5]), []).append((evt[0], evt[7]))
+    if 'seq' not in term_seq or len(har.opened['A']) < 2 or len(har.opened['P']) < 2:
+        run.stats['multi.not_reached'] = 1
+        return run
+    if not term_seq.get('all_established'):
+        run.stats['multi.not_reached'] = 1
+        run.stats['probe.term_before_established'] = 1
+        return run
+    shutdown = plan['term']['kind'] == 'shutdown'
+    tside = plan['term']['side']
+    busy_other = False
+    for cx in range(2):
+        terminated = shutdown or int(plan['term']['kind'][-1]) == cx
+        conn = har.net.conns[cx] if len(har.net.conns) > cx else None
+        wire = {'A': [], 'P': []}
+        if conn is not None:
+            for (side, pipe) in (('A', conn.a2b), ('P', conn.b2a)):
+                dec = rfc9174.StreamDecoder()
+                for (seq, when, data) in pipe.tap:
+                    wire[side].extend(dec.feed(data, (seq, when)))
+        for side in ('A', 'P'):
+            peer = 'P' if side == 'A' else 'A'
+            path = har.opened[side][cx]
+            ppath = har.opened[peer][cx]
+            nterm = sum(1 for msg in wire[side] if msg['kind'] == 'SESS_TERM')
+            if nterm > 1:
+                run.viols.append(('sess-term', 'more-than-one', '%s wrote %d SESS_TERM messages on contact %d' % (side, nterm, cx)))
+            established = any(args[0] == 'established' for (_seq, args) in sigs.get((side, path, 'session_state_changed'), []))
+            pest = any(args[0] == 'established' for (_seq, args) in sigs.get((peer, ppath, 'session_state_changed'), []))
+            if not (established and pest):
+                continue
+            started = sigs.get((side, path, 'send_bundle_started'), [])
+            fin_tx = {args[0]: args for (_seq, args) in sigs.get((side, path, 'send_bundle_finished'), [])}
+            fin_rx = {args[0]: args for (_seq, args) in sigs.get((peer, ppath, 'recv_bundle_finished'), [])}
+            ending = [seq for (seq, args) in sigs.get((side, path, 'session_state_changed'), []) if args[0] == 'ending']
+            for (sseq, args) in started:
+                tid = args[0]
+                if ending and sseq > ending[0]:
+                    run.viols.append(('new-transfer', 'started-after-term', '%s started transfer %s on contact %d after it began terminating' % (side, tid, cx)))
+                    continue
+                if sseq < term_seq['seq'] and tid not in fin_tx:
+                    busy_other = True
+                if tid not in fin_rx or fin_rx[tid][2] != 'success':
+                    run.viols.append(('in-progress', 'not-delivered-multi-contact', 'transfer %s of %s on contact %d was started and never completed at %s (%s by %s)' % (
+                        tid, side, cx, peer, plan['term']['kind'], tside)))
+                elif tid not in fin_tx or fin_tx[tid][2] != 'success':
+                    run.viols.append(('in-progress', 'not-acknowledged-multi-contact', 'transfer %s of %s on contact %d was delivered but %s never reported success' % (tid, side, cx, side)))
+            if terminated:
+                started_ids = set(args[0] for (_seq, args) in started)
+                for (_qseq, qside, qcx, tid, _len) in queued:
+                    if qside == side and qcx == cx and tid not in started_ids and tid not in fin_tx:
+                        run.viols.append(('unstarted', 'silently-lost', 'transfer %s queued at %s on contact %d was neither started nor reported as not sent' % (tid, side, cx)))
+                if nterm == 0:
+                    run.viols.append(('sess-term', 'missing-multi-contact', '%s never wrote a SESS_TERM on contact %d although it was terminated' % (side, cx)))
+                if path not in har.closed[side]:
+                    run.viols.append(('close', 'half-open-multi-contact', '%s still holds contact %d open at the end of the run' % (side, cx)))
+            elif path in har.closed[side]:
+                run.viols.append(('close', 'other-contact-closed', 'terminate on one contact closed contact %d of %s as well' % (cx, side)))
+    if busy_other:
+        run.stats['probe.term_mid_transfer'] = 1
+    run.stats['wire.SESS_TERM'] = 1
+    return run
+
+
 def execute(plan, sched, verbose=False):
+    if plan.get('scenario') == 'tcpcl_multi':
+        return _execute_multi(plan, sched, verbose)
     return tcpcl_pair.run_plan(plan, sched, verbose)
 
 
 def judge(run):
+    if isinstance(run, _MRun):
+        return run.viols
     obs = tc.Obs(run)
     run.obs = obs
     viols = tc.check_termination(obs)
@@ -42,6 +191,11 @@ def judge(run):
 
 
 def describe(run):
+    if isinstance(run, _MRun):
+        counters = dict(run.wld.counters)
+        counters.update(run.stats)
+        return dict(nontrivial=not run.stats.get('multi.not_reached'), key=run.wld.digest(), sim_us=run.wld.now, steps=run.wld.steps, capped=run.wld.capped,
+                    counters=counters, sample=dict(engine='multi_contact', term=run.plan['term'], sends=run.plan['sends'][:6]))
     obs = getattr(run, 'obs', None) or tc.Obs(run)
     extra = {}
     ending = {side: tc.state_times(obs, side).get('ending') for side in ('A', 'P')}
